@@ -11,8 +11,8 @@ func init() {
 	register(&propInfo{
 		ID:          "C02",
 		Run:         runC02,
-		MinObl:      10,
-		Explanation: "Decided: R1 every success exit of the code-validate function carries the literal client-id(stored) == client-id(request) and the mismatch exit derives from ErrInvalidGrant; R2 every success exit carries redirect_uri(stored)==\"\" or redirect_uri(stored)==redirect_uri(request), mismatch exit derives from ErrInvalidGrant; R3 ValidateAuthorizeCode returned nil for the very string whose signature was looked up (layer: validate success exit or redeem function before any create); R4 the request's scopes/audience/session are overwritten from the stored request only and every GrantScope/GrantAudience argument in the redeem function is an element of the stored grant (nothing derives from the token request's form); R5 failed attempts do not mutate storage (C01.R4). NOT decided: semantics of differently-encoded redirect URIs, what the application put into the stored session, expiry arithmetic (C07).",
+		MinObl:      13,
+		Explanation: "Decided: R1 every success exit of the code-validate function carries the literal client-id(stored) == client-id(request) and the mismatch exit derives from ErrInvalidGrant; R2 every success exit carries redirect_uri(stored)==\"\" or redirect_uri(stored)==redirect_uri(request), mismatch exit derives from ErrInvalidGrant; R3 ValidateAuthorizeCode returned nil for the very string whose signature was looked up (layer: validate success exit or redeem function before any create); R4 the request's scopes/audience/session are overwritten from the stored request only and every GrantScope/GrantAudience argument in the redeem function is an element of the stored grant (nothing derives from the token request's form); R5 failed attempts do not mutate storage (C01.R4). R5 the authorize request is stored with a whitelist that keeps redirect_uri (the handler's default list, or the operator's list only when it is known non-empty), so the binding of R2 has something to compare; R6 Request.SetRequestedScopes / SetRequestedAudience reset the field on every path before appending (the override steps really override). NOT decided: semantics of differently-encoded redirect URIs, what the application put into the stored session, expiry arithmetic (C07).",
 	})
 }
 
